@@ -90,7 +90,7 @@ func checkC13(c *ev.Ctx) {
 		sched := bufSchedules[r.Intn(len(bufSchedules))]
 		frag := fragKinds[r.Intn(len(fragKinds))]
 		byteSrc := r.Bool()
-		if len(s.Content) > 50000 && (sched == "one" || sched == "zero-one") && i%7 != 0 {
+		if len(s.Content) > 50000 && (sched == "one" || sched == "zero-one") && (i%7 != 0 || len(s.Content) > 400000) {
 			sched = "rand64"
 		}
 		src := mon.NewSource(s.B)
@@ -129,7 +129,8 @@ func checkC13(c *ev.Ctx) {
 			edges := []int{4095, 4096, 4097, 65535, 65536, 65537, 50000, 49999, 50001, 7000, 6999, 273}
 			nilZero := 0
 			afterEOF := 0
-			for step := 0; step < 3_000_000; step++ {
+			maxSteps := 3*len(s.Content) + 100000 // a logical bound: even alternating 0/1-byte reads need only 2 calls per byte
+			for step := 0; step < maxSteps; step++ {
 				var l int
 				switch sched {
 				case "one":
@@ -191,7 +192,7 @@ func checkC13(c *ev.Ctx) {
 					nilZero = 0
 				}
 			}
-			bad = "no end of stream after 3,000,000 Read calls"
+			bad = fmt.Sprintf("no end of stream after %d Read calls for %d content bytes", maxSteps, len(s.Content))
 		})
 		det["trace"] = trace
 		c.Eval(fmt.Sprintf("%s|%s|%s|%v", s.ID, sched, frag, byteSrc), true)
